@@ -58,6 +58,9 @@ def build(repo):
                         'exit flags:: implies(not isnone(result[3]), result[3].flag == EXIT_MAXFUN_WARNING or result[3].flag == EXIT_SUCCESS)',
                         'MAXFUN => nf == maxfun:: implies(not isnone(result[3]) and result[3].flag == EXIT_MAXFUN_WARNING, self.nf == self.maxfun)',
                         'SUCCESS => small msg:: implies(not isnone(result[3]) and result[3].flag == EXIT_SUCCESS, result[3].msg == "%s" and result[2] > 0)' % SMALL_MSG,
+                        ('(C10 a) SUCCESS is only raised when the objective of this very evaluation - sum of squares of the mean of the completed samples, plus h at the '
+                         'evaluated point - passed the small-objective test:: implies(not isnone(result[3]) and result[3].flag == EXIT_SUCCESS, '
+                         'LEQ(ite(isnone(self.h), SUMSQ(MEANV(result[0], result[2])), ADDV(SUMSQ(MEANV(result[0], result[2])), HVAL(RS(x)))), MINOBJ(G.mver)))', 'C10', 'C06'),
                         'zero samples => exit:: implies(result[2] == 0, not isnone(result[3]))',
                         'exit messages:: implies(not isnone(result[3]), result[3].msg == "%s" or result[3].msg == "%s")' % (SMALL_MSG, MAXFUN_MSG),
                         'self.last_successful_run == old(self.last_successful_run)'])
@@ -206,6 +209,9 @@ def build(repo):
                         'before:Controller.get_new_direction_for_growing#1': [('random perturbation only while growing and under growing.perturb_trust_region_step:: '
                                                                               'not finished_growing and params("growing.perturb_trust_region_step")', 'C19')],
                         'return#1': [('exit at x0 names x0 as evaluation point nx:: result[10] == nx and result[4] == num_samples_run and result[0] == x0', 'C03'),
+                                           ('(C10 a) a SUCCESS exit at x0 returns an objective (sum of squares of the averaged residual plus h(x0)) that passed the abs_tol test:: '
+                                            'implies(result[8].flag == EXIT_SUCCESS, LEQ(result[2], params("model.abs_tol")) and '
+                                            'result[2] == ite(isnone(h), SUMSQ(result[1]), ADDV(SUMSQ(result[1]), HVAL(RS(x0)))) and result[1] == MEANV(rvec_list, num_samples_run))', 'C10', 'C06'),
                                            ('no Jacobian at the x0 exit:: isnone(result[3])', 'C11')],
                         'break@while#0': [
                    ('trial point offered or NaN:: not G.pending or G.nanflag', 'C04', 'C08'),
